@@ -44,11 +44,14 @@ func (p *prover) contractFacts(s *factSet, t term, seen map[term]bool) {
 		return
 	}
 	switch cc.Method.Name() {
+	case "MaxFieldLength":
+		s.le(zeroT(), t, 0)
+		p.noteUse("contract base.LogRewriter.MaxFieldLength: result >= 0 (every implementation checked by C07.R4c)")
 	case "WriteFieldBody":
 		s.le(zeroT(), t, 0)
 		s.le(t, lenT(cc.Args[2]), 0)
 		p.defs(s, lenT(cc.Args[2]), seen, 1)
-		p.noteUse("contract base.LogRewriter.WriteFieldBody: 0 <= result <= len(buffer)")
+		p.noteUse("contract base.LogRewriter.WriteFieldBody: 0 <= result <= len(buffer) (every implementation checked by C07.R4c)")
 		// a dominating MaxFieldLength call on the same rewriter with the same arguments
 		eachInstr(cl.Parent(), func(in ssa.Instruction) {
 			m, ok := in.(*ssa.Call)
@@ -261,7 +264,7 @@ func (p *prover) immutableLenFacts() map[string]*fieldLenFacts {
 		first := true
 		for _, st := range stores {
 			lv := lenT(st.at.Val)
-			p.depth = 1
+			p.depth = 0
 			if ff.eqNF && !(p.prove(st.fn, st.at, lv, nfT(), 0, nil) && p.prove(st.fn, st.at, nfT(), lv, 0, nil)) {
 				ff.eqNF = false
 			}
@@ -400,7 +403,7 @@ func (p *prover) lenRetSummary(callee *ssa.Function, ridx int) []lenRetFact {
 	if e, ok := p.lenRetCache[k]; ok {
 		return e
 	}
-	if p.depth >= 3 || p.retBusy[k] {
+	if p.nest >= 6 || p.retBusy[k] {
 		p.taint = true
 		return nil
 	}
@@ -419,7 +422,10 @@ func (p *prover) lenRetSummary(callee *ssa.Function, ridx int) []lenRetFact {
 	}
 	cands = append(cands, lenRetFact{1, 0}, lenRetFact{2, 0})
 	var out []lenRetFact
-	p.depth++
+	savedDepth := p.depth
+	p.depth = 0
+	p.nest++
+	defer func() { p.depth = savedDepth; p.nest-- }()
 	for _, cd := range cands {
 		var other term
 		switch cd.kind {
@@ -446,7 +452,6 @@ func (p *prover) lenRetSummary(callee *ssa.Function, ridx int) []lenRetFact {
 			out = append(out, cd)
 		}
 	}
-	p.depth--
 	p.lenRetCache[k] = out
 	return out
 }
